@@ -19,3 +19,15 @@ class Ref:
 
     def __init__(self, timestamps):
         self.timestamps = timestamps
+
+
+def wav_insert_then_delete(wav, t, frames):
+    """C16: inserting and then deleting the same stretch restores the original"""
+    wav.insert(t, frames)
+    wav.deleteSegment(t, t + len(frames) / wav.sampleWidth / wav.frameRate)
+    return wav.frames
+
+
+def wav_index_shift(wav, t, m):
+    """byte distance between the sample positions nearest to t and to t + m samples"""
+    return wav._getIndexAtTime(t + m / wav.frameRate) - wav._getIndexAtTime(t)
